@@ -399,12 +399,18 @@ class Gen:
                             if k in vocab.VOCAB[isa]])
             lines.insert(1, {"k": k, "t": nm})
             lines.append({"sec": sec})
-            if rng.random() < 0.3:
-                lines.append({"k": "bytes",
-                              "hex": rng.randbytes(rng.randrange(1, 4)).hex()})
-            lines.append({"l": nm})
-            lines.append({"k": "bytes",
-                          "hex": rng.randbytes(rng.randrange(1, 9)).hex()})
+            if rng.random() < 0.08:
+                # nothing but the label: the library refuses (a label on a
+                # zero-sized block of another section, NotImplementedError)
+                lines.append({"l": nm})
+                self.case["label_only_tail"] = True
+            else:
+                if rng.random() < 0.3:
+                    lines.append({"k": "bytes", "hex": rng.randbytes(
+                        rng.randrange(1, 4)).hex()})
+                lines.append({"l": nm})
+                lines.append({"k": "bytes", "hex": rng.randbytes(
+                    rng.randrange(1, 9)).hex()})
         if self.knobs.get("align_lines") and rng.random() < 0.25:
             # real alignment requirements inside the patch (only for checks
             # that do not predict exact byte positions)
@@ -529,6 +535,7 @@ class Gen:
                 edits.append({"op": "del", "b": b["id"], "i": i, "n": cnt,
                               "proxy": op == "delproxy"})
         case["edits"] = edits
+        self.cross_patch_references(edits)
         if rng.random() < 0.2:
             case["driver"] = "passes"
         if case["fmt"] == "elf" and rng.random() < 0.15 and self.any_labels:
@@ -540,6 +547,35 @@ class Gen:
             case["extern_lookups"] = names[:3] or [
                 rng.choice(self.any_labels)]
         return edits
+
+    def cross_patch_references(self, edits):
+        """a patch may name a global label that a patch applied earlier in
+        the same rewrite (lower address, or same place and registered
+        earlier) brought into the module"""
+        rng = self.rng
+        order = {}
+        for s in self.case["secs"]:
+            for iv in s["ivs"]:
+                for b in iv["blocks"]:
+                    order[b["id"]] = len(order)
+        patches = []
+        for eid, e in enumerate(edits):
+            if e.get("op") in ("ins", "rep") and "lines" in e.get("p", {}):
+                patches.append(((order[e["b"]], e["i"], eid), e))
+        patches.sort(key=lambda x: x[0])
+        seen = []
+        for _, e in patches:
+            lines = e["p"]["lines"]
+            cut = next((k for k, ln in enumerate(lines) if "sec" in ln),
+                       len(lines))
+            if seen and rng.random() < 0.2:
+                uses = [ln for ln in lines[:cut]
+                        if ln.get("k") in PATCH_SYM_KEYS and "t" in ln]
+                if uses:
+                    rng.choice(uses)["t"] = rng.choice(seen)
+                    self.case["cross_patch_refs"] = True
+            seen += [ln["l"] for ln in lines[:cut]
+                     if "l" in ln and not ln.get("temp")]
 
     def themed_edits(self, edits, per_block):
         """2-3 modifications that all concern one function F: edits at call
